@@ -125,7 +125,15 @@ fn main() {
                 eprintln!("machinery: gosem conformance against the recorded goldens failed");
                 std::process::exit(2);
             }
-            let fams = families::for_property(prop);
+            let mut fams = families::for_property(prop);
+            // triage aid: one family only (never into the committed evidence directory)
+            if let Ok(only) = std::env::var("GOMLMC_ONLY") {
+                if root == "/verif" {
+                    eprintln!("machinery: GOMLMC_ONLY needs a scratch root (the evidence it writes is partial)");
+                    std::process::exit(2);
+                }
+                fams.retain(|f| f.name() == only);
+            }
             if fams.is_empty() {
                 eprintln!("machinery: no family serves {}", prop);
                 std::process::exit(2);
